@@ -224,7 +224,7 @@ func (j *c13Judge) run(op *world.Op) (cut bool, mode string, overlap bool) {
 	if op.Kind == "upgrade" {
 		mode = c13Mode(op)
 	}
-	line := fmt.Sprintf("%s values=%s defaults=%s fault=%s => err=%v %s", op.Kind+"["+mode+"]", jsonOf(op.Values), jsonOf(op.Chart.Defaults), op.Fault, res.Err != nil, world.HistString(res.Post))
+	line := fmt.Sprintf("%s values=%s defaults=%s sub-defaults=%s fault=%s => err=%v %s", op.Kind+"["+mode+"]", jsonOf(op.Values), jsonOf(op.Chart.Defaults), jsonOf(op.Chart.SubDefaults), op.Fault, res.Err != nil, world.HistString(res.Post))
 	if op.Kind == "rollback" {
 		line = fmt.Sprintf("rollback to=%d => err=%v %s", op.Target, res.Err != nil, world.HistString(res.Post))
 	}
@@ -259,24 +259,28 @@ func (j *c13Judge) run(op *world.Op) (cut bool, mode string, overlap bool) {
 	var want c13Rev
 	switch op.Kind {
 	case "install":
-		want = c13Rev{config: newVals, defaults: op.Chart.Defaults}
+		want = c13Rev{config: newVals, defaults: c13Defaults(op.Chart)}
 	case "upgrade":
 		if base == nil {
 			return false, mode, false
 		}
 		switch mode {
 		case "reset-values":
-			want = c13Rev{config: newVals, defaults: op.Chart.Defaults}
+			want = c13Rev{config: newVals, defaults: c13Defaults(op.Chart)}
 		case "reuse-values":
 			want = c13Rev{config: refMerge(newVals, base.config), defaults: base.defaults}
 			want.baked = refCoalesce(want.config, base.baked)
+			if op.Chart.SubDefaults != nil {
+				// ... and the new version's subchart defaults still shine through below the subchart's key
+				want.baked = refCoalesce(want.baked, map[string]interface{}{"sub": deepCopyVal(op.Chart.SubDefaults)})
+			}
 		case "reset-then-reuse-values":
-			want = c13Rev{config: refMerge(newVals, base.config), defaults: op.Chart.Defaults}
+			want = c13Rev{config: refMerge(newVals, base.config), defaults: c13Defaults(op.Chart)}
 		default:
 			if len(newVals) > 0 {
-				want = c13Rev{config: newVals, defaults: op.Chart.Defaults}
+				want = c13Rev{config: newVals, defaults: c13Defaults(op.Chart)}
 			} else {
-				want = c13Rev{config: base.config, defaults: op.Chart.Defaults}
+				want = c13Rev{config: base.config, defaults: c13Defaults(op.Chart)}
 			}
 		}
 		la, lb := map[string]string{}, map[string]string{}
@@ -327,7 +331,7 @@ func (j *c13Judge) run(op *world.Op) (cut bool, mode string, overlap bool) {
 			if same, _ := sameLeaves(seen, want.baked); same && mode == "reuse-values" {
 				return j.fail("C13:rendered-values-differ/upgrade/reuse-values/explained-by-effective-values-baked-into-chart-defaults", fmt.Sprintf("revision %d templates saw %s, expected %s = user values %s over defaults in force %s (%s)", rev.Version, raw, jsonOf(exp), jsonOf(want.config), jsonOf(want.defaults), d)), mode, overlap
 			}
-			return j.fail("C13:rendered-values-differ/"+ctx+nullCtx, fmt.Sprintf("revision %d templates saw %s, expected %s = user values %s over defaults in force %s (%s)", rev.Version, raw, jsonOf(exp), jsonOf(want.config), jsonOf(want.defaults), d)), mode, overlap
+			return j.fail("C13:rendered-values-differ/"+ctx+nullCtx, fmt.Sprintf("revision %d templates saw %s, expected %s = user values %s over defaults in force %s (%s) [baked model: %s]", rev.Version, raw, jsonOf(exp), jsonOf(want.config), jsonOf(want.defaults), d, jsonOf(want.baked))), mode, overlap
 		}
 	}
 	return false, mode, overlap
@@ -343,11 +347,39 @@ func c13RunCase(tb vt.TB, backend string, ops []*world.Op) {
 	}
 }
 
+// c13PrevSub is the subchart default tree of the chart version generated last in the current case (two versions in
+// three ship the subchart unchanged; a changed one under --reuse-values mostly lands on a recorded finding).
+var c13PrevSub map[string]interface{}
+
 func c13Chart(t *rapid.T, ver int) world.ChartSpec {
-	return world.ChartSpec{Version: ver, ValuesProbe: true, Resources: []world.Res{{Kind: "ConfigMap", Name: "a", Variant: ver % 3}}, Defaults: c13GenTree(t, 1, "def")}
+	cs := world.ChartSpec{Version: ver, ValuesProbe: true, Resources: []world.Res{{Kind: "ConfigMap", Name: "a", Variant: ver % 3}}, Defaults: c13GenTree(t, 1, "def")}
+	// every chart version ships a subchart "sub" with defaults of its own (often different from the previous version's)
+	// (scalars only: which keys exist and what they hold changes from version to version)
+	opt := map[string]interface{}{}
+	for _, k := range []string{"a", "b", "c"} {
+		if rapid.Bool().Draw(t, "subHas"+k) {
+			opt[k] = rapid.SampledFrom([]string{"x", "y", "z"}).Draw(t, "subVal"+k)
+		}
+	}
+	cs.SubDefaults = map[string]interface{}{"port": float64(80 + rapid.IntRange(0, 2).Draw(t, "subPort")), "opt": opt}
+	if ver > 1 && c13PrevSub != nil && rapid.IntRange(0, 2).Draw(t, "subUnchanged") > 0 {
+		cs.SubDefaults = deepCopyVal(c13PrevSub).(map[string]interface{})
+	}
+	c13PrevSub = cs.SubDefaults
+	return cs
+}
+
+// c13Defaults is the chart's whole default tree as the parent sees it: its own values.yaml over the subchart's defaults
+// under the subchart's name.
+func c13Defaults(cs world.ChartSpec) map[string]interface{} {
+	if cs.SubDefaults == nil {
+		return cs.Defaults
+	}
+	return refCoalesce(cs.Defaults, map[string]interface{}{"sub": deepCopyVal(cs.SubDefaults)})
 }
 
 func c13Prop(t *rapid.T) {
+	c13PrevSub = nil
 	w := world.New("secret") // values survive a JSON round trip, as in production
 	j := &c13Judge{t: t, w: w, ledger: map[int]c13Rev{}}
 	maxOps := 6
@@ -389,6 +421,11 @@ func c13Prop(t *rapid.T) {
 			// some upgrades fail after their revision was recorded: the deployed revision stays the base
 			if rapid.IntRange(0, 5).Draw(t, "failing") == 0 {
 				op.Fault = world.Fault{Kind: "wait", K: 0}
+			} else if h := w.History(); len(h) > 0 && h[len(h)-1].Status == "failed" && rapid.IntRange(0, 2).Draw(t, "deployedLookupFails") == 0 {
+				// the last revision is a failed upgrade and the lookup of the deployed one fails: the upgrade must not
+				// carry on from the failed revision's values
+				op.Fault = genDeployedLookupFault(t, w, op)
+				modes["deployed-lookup-fault-after-failed-upgrade"] = true
 			}
 		}
 		if len(op.Values) > 0 {
